@@ -48,6 +48,13 @@ class Scte35Events(RepeatingEventBase):
         if self.inband:
             self.version = 1
 
+    def has_valid_schedule(self) -> bool:
+        # break_duration is a 33 bit field using the MPEG timebase
+        return (
+            super().has_valid_schedule() and
+            0 <= self.program_id <= 0xFFFF and
+            (self.duration * MPEG_TIMEBASE // self.timescale) < (1 << 33))
+
     def get_manifest_event_payload(self, event_id: int, presentation_time: int) -> str:
         splice = self.create_binary_signal(event_id, presentation_time)
         data = splice.encode()
@@ -67,6 +74,10 @@ class Scte35Events(RepeatingEventBase):
         if self.count > 0:
             avail_num = 1 + (event_id // 2)
             avails_expected = 1 + (self.count // 2)
+            if avails_expected > 255:
+                # both are 8 bit fields. avails_expected=0 states that
+                # avail_num has no meaning
+                avails_expected = avail_num = 0
         else:
             avails_expected = avail_num = 0
 
